@@ -42,6 +42,11 @@ FAMILIES = {
 # whole-series tests: two sub-families, each acceptable on its own, never together (one coercion map / one path flavour per series)
 FAMILIES["bool-strings-2"] = (["yes", "no"], object, ["true", "false", "y", "n"])
 FAMILIES["windows-paths"] = (["C:\\Users\\a", "D:\\data\\x.csv"], object, ["/usr/lib", "/tmp/x"])
+# the same numbers in three representations (equal values, equal hashes): typed one after the other in ONE process with one sample
+# size, each must get its own answer (a result remembered under the values alone would hand the first answer to the others)
+FAMILIES["counter-int"] = ([1, 0], "int64", [7])
+FAMILIES["counter-bool"] = ([True, False], "bool", [True])
+FAMILIES["counter-float"] = ([1.0, 0.0], "float64", [0.5])
 LENGTHS = [1000, 1001, 1499, 1500, 2000, 2345, 3000]
 SMALL = [0, 1, 5, 12, 999]
 
@@ -199,7 +204,10 @@ def observe(case):
 
 def _worker(cases):
     out = []
+    flat = []
     for c in cases:
+        flat.extend(c["group"] if "group" in c else [c])      # a group runs back to back in this very process
+    for c in flat:
         try:
             o = observe(c)
         except Exception:  # noqa
@@ -225,6 +233,11 @@ def run(tier, seed, nproc=16):
         for k in (5, 10, 50):
             cases.append({"family": "dmy-dates", "n": n, "kind": "none", "pos": [], "contam": [], "base_seed": n + k,
                           "sample_size": k, "draws": [11, 12, 13, 14, 15, 16], "typeset": rng.choice(["standard", "complete"])})
+    for n in (1500, 999, 2345):
+        for order in (("counter-int", "counter-bool", "counter-float"), ("counter-float", "counter-int", "counter-bool"),
+                      ("counter-bool", "counter-float", "counter-int")):
+            cases.append({"group": [{"family": fam, "n": n, "kind": "none", "pos": [], "contam": [], "base_seed": 5, "sample_size": 10,
+                                     "draws": [21, 22], "typeset": "standard"} for fam in order]})
     chunks = [cases[i::nproc] for i in range(nproc)]
     with mp.Pool(nproc) as pool:
         outs = pool.map(_worker, [c for c in chunks if c])
